@@ -1,3 +1,39 @@
+/-
+  DecProofs.Properties.C04ScanTotal — TOTALITY of the code-shaped model of `bid128_from_string`
+  (`convert_from_decimal_character`): for EVERY text and every rounding mode the composed model
+  (scanner `Dec.scanCP` of DecModel/Scan.lean + numeric phase `Dec.ScanNum.numericPhase` of DecModel/ScanNum.lean +
+  the packer `PackH.get_BID128` of DecModel/PackHelpers.lean) returns `some …`, i.e. reaches none of its panic sites.
+
+  Headline theorems (no extra hypothesis; axioms: propext, Classical.choice, Quot.sound):
+    * `fromStringCP_total   (mode) (cps : List Nat)   : ScanNum.fromStringCP mode cps ≠ none`
+    * `fromStringCode_total (mode) (text : List Char) : fromStringCode mode text ≠ none`
+    * `fromStringCodeBits_total (mode) (utf8 : Bytes) : fromStringCodeBits mode utf8 ≠ some none`
+      (the judge interface never predicts a panic)
+  This extends `C04ScanNum.fromStringCode_no_panic` (well-formed literals, ≤ 100 digits, bounded exponent) to all
+  texts: lenient spellings, ill-formed text, more than 100 digits, any exponent, non-ASCII code points.
+
+  How it is proved.
+    1. `get_total` / `pack_total`: `bid_get_BID128` cannot index a table out of range for ANY sign word, ANY
+       coefficient words and ANY exponent in the `i32` range (the only table accesses are in `handle_UF_128`, reached
+       with `−34 ≤ expon ≤ −1` after the early return, so `ed2 ∈ 1..34`; the tables have 36 rows —
+       `C13PackHelpers.table_shapes`, `recip_scale_range`).  The numeric phase passes `wrapI32 …`, always in range.
+    2. `readRun_total`, `slice_total`, `smallPath_total`, `carryOf_total`, `largePath_total`: `buffer` is an array of
+       exactly 100 entries (`arrOf_length`), and every index / slice the phase forms is within it whenever the
+       number `n` of stored digits is what `numericPhase` passes (`n ≤ 34` on the small path; `35 ≤ min n 100 ≤ 100`
+       on the large path).  No hypothesis on the contents of `buffer` is needed — except at ONE place:
+       `char::to_digit(buffer[34], 10).unwrap()` in the `NearestAway` arm (`carryOf … .rna`), which needs
+       `buffer[34]` to be a digit.
+    3. `Inv l := (l.intDigits ++ l.fracDigits).all isDigitB` — the explicit decidable invariant of the hand-over
+       `.number l sticky`; `numericPhase_total : Inv l → (numericPhase mode l sticky).isSome`.  Nothing about the
+       digit count, the first digit, the exponent size or `sticky` is needed.
+    4. `scanCP_inv : scanCP cps = .number l sticky → Inv l` — the three digit loops store a character only behind
+       `char::is_digit(c, 10)` (`collectDigits_digits`), and `finishScan` adds only `'0'`s.
+    5. the scanner itself never panics: `C04Scan.scanCP_np` (reused).
+
+  Nothing is missing: there is no `_partial` theorem in this file.  Adversarial texts evaluated on the model in all
+  five modes before the proof (101/150/200 digits, `1e±9999999`, 7000 fraction zeros, sub-`'0'` characters such as
+  `/` and `!` that the signed comparison of line 312 lets through, non-ASCII text) all gave `some …`.
+-/
 import DecModel.ScanNum
 import DecProofs.Properties.C04Scan
 import DecProofs.Properties.C13PackHelpers
@@ -85,6 +121,10 @@ theorem readRun_total (arr : Bytes) (hlen : arr.length = 100) (a b : Nat) (hab :
   rw [List.getElem?_eq_getElem ha, slice_total arr hlen (a + 1) b hab hb]
   exact ⟨_, rfl⟩
 
+theorem isSome_bind_of {α β : Type} {o : Option α} {f : α → Option β} {v : α} (h : o = some v)
+    (hf : (f v).isSome = true) : (o >>= f).isSome = true := by
+  subst h; exact hf
+
 theorem smallPath_total (mode : Mode) (signX : Nat) (arr : Bytes) (hlen : arr.length = 100) (n : Nat) (hn : n ≤ 34)
     (e : Int) (h1 : -2147483648 ≤ e) (h2 : e < 2147483648) : (smallPath mode signX arr n e).isSome = true := by
   unfold smallPath
@@ -92,47 +132,46 @@ theorem smallPath_total (mode : Mode) (signX : Nat) (arr : Bytes) (hlen : arr.le
   · exact Option.isSome_some
   · split
     · obtain ⟨v, hv⟩ := readRun_total arr hlen 0 n (by omega) (by omega)
-      simp only [hv, Option.bind_eq_bind, Option.bind_some]
+      refine isSome_bind_of hv ?_
       exact pack_total _ _ _ _ _ h1 h2
-    · obtain ⟨v, hv⟩ := readRun_total arr hlen 0 (n - 17) (by omega) (by omega)
-      obtain ⟨w, hw⟩ := readRun_total arr hlen (n - 17) n (by omega) (by omega)
-      simp only [hv, hw, Option.bind_eq_bind, Option.bind_some]
+    · obtain ⟨m, rfl⟩ : ∃ m, n = m + 17 := ⟨n - 17, by omega⟩
+      rw [Nat.add_sub_cancel]
+      obtain ⟨v, hv⟩ := readRun_total arr hlen 0 m (by omega) (by omega)
+      obtain ⟨w, hw⟩ := readRun_total arr hlen m (m + 17) (by omega) (by omega)
+      refine isSome_bind_of hv ?_
+      refine isSome_bind_of hw ?_
       exact pack_total _ _ _ _ _ h1 h2
 
-#exit
 theorem carryOf_total (mode : Mode) (signX : Nat) (arr : Bytes) (hlen : arr.length = 100) (n : Nat)
     (hn : 35 ≤ n) (hn' : n ≤ 100) (e : Int) (coeffLow : Nat)
     (b : Nat) (hb : arr[34]? = some b) (hd : isDigitB b = true) :
-    ∃ c, carryOf mode signX arr n e coeffLow = some c := by
+    (carryOf mode signX arr n e coeffLow).isSome = true := by
   have s34 := slice_total arr hlen 34 n (by omega) hn'
   have s35 := slice_total arr hlen 35 n (by omega) hn'
-  cases mode
+  have ht : toDigit10 b = some (b - 48) := by simp [toDigit10, hd]
+  cases mode <;> simp only [carryOf]
   · -- rne
-    simp only [carryOf, hb, Option.bind_eq_bind, Option.bind_some, bind, Option.bind]
-    split
-    · by_cases he : e ≥ 0
-      · simp only [he, if_true, s35]; exact ⟨_, rfl⟩
-      · simp only [he, if_false, s34]; exact ⟨_, rfl⟩
-    · exact ⟨_, rfl⟩
+    refine isSome_bind_of hb ?_
+    split_ifs <;> first
+      | exact Option.isSome_some
+      | exact isSome_bind_of s35 Option.isSome_some
+      | exact isSome_bind_of s34 Option.isSome_some
   · -- rdn
-    simp only [carryOf]
-    split
-    · simp only [s34, Option.bind_eq_bind, Option.bind_some, bind, Option.bind]; exact ⟨_, rfl⟩
-    · exact ⟨_, rfl⟩
+    split_ifs <;> first
+      | exact Option.isSome_some
+      | exact isSome_bind_of s34 Option.isSome_some
   · -- rup
-    simp only [carryOf]
-    split
-    · simp only [s34, Option.bind_eq_bind, Option.bind_some, bind, Option.bind]; exact ⟨_, rfl⟩
-    · exact ⟨_, rfl⟩
-  · exact ⟨_, rfl⟩
+    split_ifs <;> first
+      | exact Option.isSome_some
+      | exact isSome_bind_of s34 Option.isSome_some
+  · -- rtz
+    exact Option.isSome_some
   · -- rna
-    have ht : toDigit10 b = some (b - 48) := by simp [toDigit10, hd]
-    simp only [carryOf, hb, ht, Option.bind_eq_bind, Option.bind_some, bind, Option.bind]
-    split
-    · split
-      · simp only [s34]; exact ⟨_, rfl⟩
-      · exact ⟨_, rfl⟩
-    · exact ⟨_, rfl⟩
+    refine isSome_bind_of hb ?_
+    refine isSome_bind_of ht ?_
+    split_ifs <;> first
+      | exact Option.isSome_some
+      | exact isSome_bind_of s34 Option.isSome_some
 
 theorem largePath_total (mode : Mode) (signX : Nat) (arr : Bytes) (hlen : arr.length = 100) (n : Nat)
     (hn : 35 ≤ n) (hn' : n ≤ 100) (e : Int) (h1 : -2147483648 ≤ e) (h2 : e < 2147483648) (si : Bool)
@@ -141,9 +180,10 @@ theorem largePath_total (mode : Mode) (signX : Nat) (arr : Bytes) (hlen : arr.le
   unfold largePath
   obtain ⟨v, hv⟩ := readRun_total arr hlen 0 17 (by omega) (by omega)
   obtain ⟨w, hw⟩ := readRun_total arr hlen 17 34 (by omega) (by omega)
-  obtain ⟨c, hc⟩ := carryOf_total mode signX arr hlen n hn hn' e w b hb hd
-  rw [hv, hw]
-  simp only [Option.bind_eq_bind, Option.bind_some, bind, Option.bind, hc]
+  obtain ⟨c, hc⟩ := Option.isSome_iff_exists.1 (carryOf_total mode signX arr hlen n hn hn' e w b hb hd)
+  refine isSome_bind_of hv ?_
+  refine isSome_bind_of hw ?_
+  refine isSome_bind_of hc ?_
   apply pack_total
   · split
     · exact (wrapI32_range _).1
@@ -151,5 +191,201 @@ theorem largePath_total (mode : Mode) (signX : Nat) (arr : Bytes) (hlen : arr.le
   · split
     · exact (wrapI32_range _).2
     · exact h2
+
+/-! ## 3. the invariant of the hand-over, and the numeric phase under it -/
+
+/-- **The invariant of the hand-over** `.number l sticky`: every character the scanner has stored (`l.intDigits`,
+`l.fracDigits`, hence `buffer`) is one of the ASCII digits `'0'..'9'` (48..57).  It does not mention `sticky`, the
+number of digits, or the exponent: nothing else is needed. -/
+def Inv (l : Literal) : Bool := (l.intDigits ++ l.fracDigits).all isDigitB
+
+theorem bufOf_digits (l : Literal) (h : Inv l = true) : ∀ b ∈ bufOf l, isDigitB b = true := by
+  intro b hb
+  simp only [Inv, List.all_eq_true] at h
+  apply h
+  simp only [bufOf, List.mem_append] at hb ⊢
+  rcases hb with hb | hb
+  · exact Or.inl hb
+  · exact Or.inr (List.mem_of_mem_drop hb)
+
+/-- **The numeric phase never panics under the invariant** — any number of stored digits (also more than 100: the
+array model `arrOf` keeps 100), any exponent `l.exp : Int` (the code reduces it to `i32`), any `sticky`, any mode. -/
+theorem numericPhase_total (mode : Mode) (l : Literal) (sticky : Bool) (h : Inv l = true) :
+    (numericPhase mode l sticky).isSome = true := by
+  unfold numericPhase
+  dsimp only
+  split
+  · rename_i hn
+    exact smallPath_total _ _ _ (arrOf_length _) _ hn _ (wrapI32_range _).1 (wrapI32_range _).2
+  · rename_i hn
+    have hlt : 34 < (bufOf l).length := by omega
+    have hb : (arrOf (bufOf l))[34]? = some (bufOf l)[34] := by
+      rw [arrOf_get _ _ hlt (by omega), List.getElem?_eq_getElem hlt]
+    exact largePath_total _ _ _ (arrOf_length _) _ (by omega) (by omega) _ (wrapI32_range _).1 (wrapI32_range _).2 _ _ hb
+      (bufOf_digits l h _ (List.getElem_mem _))
+
+/-! ## 4. the scanner establishes the invariant -/
+
+/-- if the outcome is a hand-over to the numeric phase, the invariant holds -/
+def Good (o : ScanOutcome) : Prop := ∀ l st, o = .number l st → Inv l = true
+
+theorem collectDigits_digits (r : List Nat) : ∀ n buf st a, (∀ b ∈ buf, isDigitB b = true) →
+    collectDigits r n buf st = .ok a → ∀ b ∈ a.buf, isDigitB b = true := by
+  induction r with
+  | nil =>
+    intro n buf st a hbuf h
+    unfold collectDigits at h
+    cases h
+    exact hbuf
+  | cons c t ih =>
+    intro n buf st a hbuf h
+    unfold collectDigits at h
+    split at h
+    · cases h; exact hbuf
+    · rename_i hc
+      have hc' : isDigitB c = true := by simpa using hc
+      have hbuf' : ∀ b ∈ buf ++ [c], isDigitB b = true := by
+        intro b hb
+        rcases List.mem_append.1 hb with hb | hb
+        · exact hbuf b hb
+        · have : b = c := by simpa using hb
+          rw [this]; exact hc'
+      split at h
+      · rename_i hn
+        have : bufSet buf n c = some (buf ++ [c]) := by simp [bufSet]; omega
+        simp only [this] at h
+        exact ih _ _ _ _ hbuf' h
+      · split at h
+        · rename_i hn
+          have : bufSet buf n c = some (buf ++ [c]) := by simp [bufSet, hn]
+          simp only [this] at h
+          exact ih _ _ _ _ hbuf' h
+        · exact ih _ _ _ _ hbuf h
+
+theorem finishScan_good (neg : Bool) (nb : Nat) (buf : Bytes) (st : Bool) (z : Nat) (r : List Nat)
+    (hbuf : ∀ b ∈ buf, isDigitB b = true) : Good (finishScan neg nb buf st z r) := by
+  intro l s h
+  unfold finishScan at h
+  split at h
+  · cases h
+  · cases h
+  · injection h with h1 h2
+    subst h1
+    simp only [Inv, List.all_eq_true, List.mem_append, List.mem_replicate]
+    rintro b (hb | ⟨_, rfl⟩ | hb)
+    · exact hbuf b (List.mem_of_mem_take hb)
+    · rfl
+    · exact hbuf b (List.mem_of_mem_drop hb)
+
+theorem scanDigits_good (neg : Bool) (r : List Nat) (rdx : Bool) (z : Nat) : Good (scanDigits neg r rdx z) := by
+  unfold scanDigits
+  obtain ⟨a, ha⟩ := collectDigits_ok r 0 [] false
+  have hda := collectDigits_digits r 0 [] false a (by simp) ha
+  split
+  · rw [ha]
+    simp only
+    split
+    · obtain ⟨b, hb⟩ := collectDigits_ok a.rest.tail a.n a.buf a.sticky
+      have hdb := collectDigits_digits _ _ _ _ b hda hb
+      rw [hb]
+      exact finishScan_good _ _ _ _ _ _ hdb
+    · exact finishScan_good _ _ _ _ _ _ hda
+  · rw [ha]
+    exact finishScan_good _ _ _ _ _ _ hda
+
+theorem zeroLoop_good (neg : Bool) (r : List Nat) (rdx : Bool) (z : Nat)
+    (o : ScanOutcome) (ho : zeroLoop neg r rdx z = .done o) : Good o := by
+  fun_induction zeroLoop neg r rdx z generalizing o
+  case case1 => cases ho
+  case case2 => cases ho
+  case case3 => cases ho; intro l s h; cases h
+  case case4 => cases ho
+  case case5 => cases ho; intro l s h; cases h
+  case case6 => cases ho; intro l s h; cases h
+  case case7 ih => exact ih o ho
+  case case8 => cases ho; intro l s h; cases h
+  case case9 ih => exact ih o ho
+
+theorem scanBody_good (neg : Bool) (r : List Nat) : Good (scanBody neg r) := by
+  unfold scanBody
+  split
+  · exact scanDigits_good _ _ _ _
+  · rename_i c t
+    split
+    · intro l s h; cases h
+    · simp only
+      split
+      · rename_i o ho
+        exact zeroLoop_good neg _ _ 0 o ho
+      · exact scanDigits_good _ _ _ _
+
+theorem scanSpecial_good (s : List Nat) (ps : Nat) : Good (scanSpecial s ps) := by
+  unfold scanSpecial
+  split
+  · intro l s h; cases h
+  · split
+    · intro l s h; cases h
+    · split <;> (intro l s h; cases h)
+
+theorem scanSigned_good (s : List Nat) (ps c : Nat) (t : List Nat) : Good (scanSigned s ps c t) := by
+  unfold scanSigned
+  split
+  · intro l s h; cases h
+  · split
+    · split
+      · intro l s h; cases h
+      · split <;> (intro l s h; cases h)
+    · split
+      · split <;> (intro l s h; cases h)
+      · exact scanBody_good _ _
+
+theorem scanCP_good (s : List Nat) : Good (scanCP s) := by
+  unfold scanCP
+  split
+  · intro l s h; cases h
+  · simp only
+    split
+    · exact scanSpecial_good _ _
+    · split
+      · exact scanSpecial_good _ _
+      · exact scanSigned_good _ _ _ _
+
+/-- **What the scanner hands over satisfies the invariant**, for every text. -/
+theorem scanCP_inv (cps : List Nat) (l : Literal) (sticky : Bool) (h : scanCP cps = .number l sticky) :
+    Inv l = true := scanCP_good cps l sticky h
+
+/-! ## 5. the composition -/
+
+/-- **Conversion from decimal characters never panics (code points).**  For every list of code points — lenient
+spellings, ill-formed text, more than 100 digits, huge exponents, non-ASCII code points — and every rounding mode,
+the composed code-shaped model (scanner + numeric phase + `bid_get_BID128`) returns a result: none of its panic
+sites (a `buffer` index or slice out of range, an `unwrap` on `None`, a byte slice off a character boundary,
+`to_digit(..).unwrap()` on a non-digit, a table index out of range in the packer) is reached.  All the functions
+involved are structural recursions, so this is also termination. -/
+theorem fromStringCP_total (mode : Mode) (cps : List Nat) : ScanNum.fromStringCP mode cps ≠ none := by
+  unfold ScanNum.fromStringCP
+  split
+  · simp
+  · simp
+  · simp
+  · simp
+  · rename_i l st heq
+    exact Option.isSome_iff_ne_none.1 (numericPhase_total mode l st (scanCP_inv cps l st heq))
+  · rename_i site heq
+    exact absurd heq (scanCP_np cps site)
+
+/-- **Conversion from decimal characters never panics.**  The same for a text given as its list of characters. -/
+theorem fromStringCode_total (mode : Mode) (text : List Char) : fromStringCode mode text ≠ none :=
+  fromStringCP_total mode (text.map Char.toNat)
+
+/-- **The judge interface never predicts a panic**: for every byte string, `fromStringCodeBits` is either `none`
+(the bytes are not well-formed UTF-8, so not a `&str`) or `some (some (pattern, flags))`. -/
+theorem fromStringCodeBits_total (mode : Mode) (utf8 : Bytes) : fromStringCodeBits mode utf8 ≠ some none := by
+  unfold fromStringCodeBits
+  cases h : utf8Decode? utf8 with
+  | none => simp
+  | some cps =>
+    simp only [Option.map_some, ne_eq, Option.some.injEq]
+    exact fromStringCP_total mode cps
 
 end Dec.C04ScanTotal
